@@ -137,7 +137,7 @@ func (vn *Net) AddNode(name string, id *ids.Identity, opts NodeOpts) (*Node, err
 	if opts.ViaFile != "" {
 		// The way the program gets its configuration: from a file, written here
 		// with the documented key names (JSON and YAML use the same ones).
-		fcfg, ferr := loadViaFile(st, opts.ViaFile)
+		fcfg, ferr := LoadViaFile(st, opts.ViaFile)
 		if ferr != nil {
 			return nil, fmt.Errorf("config accepted as a value is refused as a %s file: %w", opts.ViaFile, ferr)
 		}
@@ -547,9 +547,9 @@ func storeDoc(st config.Store) map[string]any {
 	return doc
 }
 
-// loadViaFile writes the configuration to a scratch file of the given type
+// LoadViaFile writes the configuration to a scratch file of the given type
 // ("json", "yaml" or "yml") and loads it with config.LoadConfig.
-func loadViaFile(st config.Store, typ string) (*config.Config, error) {
+func LoadViaFile(st config.Store, typ string) (*config.Config, error) {
 	doc := storeDoc(st)
 	var data []byte
 	var err error
